@@ -346,9 +346,9 @@ theorem C02_chain2_cost : type_of% @ChainCtx.readChainedSeqContext2_cost := @Cha
 Statement: `∀ (b : Bytes) (pos : Nat) (cb ci cl : List (List Nat)) (acts : List ChainCtx.Action) (ch : Bool) (c : Cost), ChainCtx.read3 b pos = Outcome.ok (Otl.Ctx.Sub.c3 cb ci cl acts ch, c) → 2 * (cb.length + ci.length + cl.length) + 10 ≤ List.length b ∧ c.steps ≤ List.length b + (cb.length + ci.length + cl.length) * (List.length b / 2 + 131074) ∧ c.alloc ≤ List.length b + (cb.length + ci.length + cl.length) * 131072` -/
 theorem C02_chain3_cost_partial : type_of% @ChainCtx.readChainedSeqContext3_cost := @ChainCtx.readChainedSeqContext3_cost
 
-/-- inputGlyphCount = 0 is accepted as a 65535-glyph input sequence when the data is there (repair offered: patches/C02/06).
+/-- Before a1a65e4 (patches/C02/06) inputGlyphCount = 0 was accepted as a 65535-glyph input sequence when the data was there (stated about the pre-repair rule reader).
 
-Statement: `∀ (S : ChainCtx.RuleSites) (b : Bytes) (q : Nat) (c : Cost) (post : Bytes), List.drop q b = [0, 0, 0, 0] ++ (List.replicate (2 * 65535) 0 ++ 0 :: 0 :: 0 :: 0 :: post) → ∃ c', ChainCtx.readCRule S b q c = Outcome.ok ({ back := [], input := List.replicate 65535 0, look := [], actions := [] }, c') ∧ c'.alloc = c.alloc + 65535 + 1` -/
+Statement: `∀ (S : ChainCtx.RuleSites) (b : Bytes) (q : Nat) (c : Cost) (post : Bytes), List.drop q b = [0, 0, 0, 0] ++ (List.replicate (2 * 65535) 0 ++ 0 :: 0 :: 0 :: 0 :: post) → ∃ c', ChainCtx.readCRuleOld S b q c = Outcome.ok ({ back := [], input := List.replicate 65535 0, look := [], actions := [] }, c') ∧ c'.alloc = c.alloc + 65535 + 1` -/
 theorem C02_chain_zero_count : type_of% @ChainCtx.chained1_zero_count_accepted := @ChainCtx.chained1_zero_count_accepted
 
 /-- Bridge to C08.
